@@ -136,7 +136,8 @@ class Lysosome:
 
         # Waste queue
         self._queue: list[Waste] = []
-        self._lock = threading.Lock()
+        # Re-entrant: ingest() auto-digests at the threshold by calling digest() while holding the lock
+        self._lock = threading.RLock()
 
         # Custom digesters
         self._digesters: dict[WasteType, Callable[[Waste], dict]] = {
